@@ -5,7 +5,8 @@
 From Coq Require Import String.
 From Coq Require Import List Ascii ZArith Bool.
 From CGV Require Import Base.PyBase Base.PyVal Base.NxGraph Dialect.DialectImpl Reader.ReaderImpl Reader.Grammar
-     Reader.ReaderCheck Reader.Lin Reader.ReaderSim Reader.ReaderMult Reader.ReaderAst Gen.ReaderEnumGen Reader.ReaderSmall.
+     Reader.ReaderCheck Reader.Lin Reader.ReaderSim Reader.ReaderMult Reader.ReaderAst Reader.ReaderWf Reader.ReaderRing
+     Gen.ReaderEnumGen Reader.ReaderSmall.
 Import ListNotations.
 Open Scope Z_scope.
 
@@ -43,14 +44,25 @@ Qed.
     bond-symbol position, single-digit and %nn ring bonds with symbols on the opening marker; strings in
     braces) the reader model returns EXACTLY what the token machine denotes: the same graph with the same
     node and edge iteration orders, or the same error (dangling ring, duplicate edge, annotation errors).
-    Missing from the full statement: the three defect classes (refuted below), texts without braces, and
-    the step from [wf] + "outside the classes" to [flat_ok], which is only established for the
-    enumerated ASTs (C04_flat_covers_small). *)
+    Missing from the full statement: the defect classes (refuted below) and texts without braces. *)
 Theorem C04_flat_strings : forall fo l, lins_ok fo l = true ->
   read_cgsmiles fo ("{"%char :: lins_str l ++ ["}"%char]) = denote_lin fo l.
 Proof. exact reader_sim_lin. Qed.
 Theorem C04_partial : forall fo a, flat_ok fo a = true -> read_cgsmiles fo (print true a) = denote fo a.
 Proof. exact reader_sim_ast. Qed.
+(** THE HEADLINE, UNBOUNDED: for every base-graph string of the documented grammar (well-formed AST, printed
+    in braces, node multipliers allowed) that lies outside the defect classes double_close and nodemult_sym
+    and carries no branch multiplier (those are C05's subject), the reader model returns exactly the denoted
+    graph.  This is the full statement of C04 minus the named classes. *)
+Theorem C04_partial_wf : forall fo a, wf fo a = true -> has_branch_mult a = false ->
+  cls_double_close a = false -> cls_nodemult_sym a = false ->
+  read_cgsmiles fo (print true a) = denote fo a.
+Proof. intros fo a H1 H2 H3 H4. apply reader_sim_ast. now apply flat_ok_of_wf. Qed.
+(** the ring table is independent of the branch and multiplier logic (used by C20): a graph is only
+    returned when the marker trace of the text ends empty, whatever else the text contains *)
+Theorem C04_ring_table_invariant : forall fo s g, read_cgsmiles fo s = Ok g -> marker_trace s = Ok [].
+Proof. exact ring_table_invariant. Qed.
+
 (** non-vacuity: {[#A;q=1]=%12([#B]|3([#C]-1)$[#D]1)[#F][#E]%12} is in the domain and denotes a graph *)
 Example C04_partial_nonvacuous :
   let a := [Item (S "A;q=1") [(Some SDouble, MPct [1%nat; 2%nat])] None None
@@ -72,6 +84,8 @@ Proof. exact C04_small_list. Qed.
 Theorem C04_small_not_vacuous : (5000 <=? length (filter (fun a => Nat.eqb (class_C04 true a) 0) small_c04))%nat = true.
 Proof. exact C04_small_nonvacuous. Qed.
 
+Print Assumptions C04_partial_wf.
+Print Assumptions C04_ring_table_invariant.
 Print Assumptions C04_flat_strings.
 Print Assumptions C04_partial.
 Print Assumptions C04_small.
